@@ -31,6 +31,10 @@ _PREFIX_BIT_MAX_NUMBERS = [(2 ** i) - 1 for i in range(9)]
 # lot of headers, but if applications want to raise it they can do.
 DEFAULT_MAX_HEADER_LIST_SIZE = 2 ** 16
 
+# The longest integer representation we accept, counted in continuation octets.
+# 2 ** 128 needs 19 of them; anything longer is refused rather than accumulated.
+_MAX_INTEGER_CONTINUATION_OCTETS = 20
+
 
 def _unicode_if_needed(header: HeaderWeaklyTyped, raw: bool) -> HeaderTuple:
     """
@@ -100,6 +104,9 @@ def decode_integer(data: bytes, prefix_bits: int) -> tuple[int, int]:
                 index += 1
 
                 if next_byte >= 128:
+                    if shift >= 7 * (_MAX_INTEGER_CONTINUATION_OCTETS - 1):
+                        msg = "HPACK integer representation is too long"
+                        raise HPACKDecodingError(msg)
                     number += (next_byte - 128) << shift
                 else:
                     number += next_byte << shift
